@@ -36,6 +36,7 @@ count; C05.6 an identity group is dropped from the registry only when no
 instance references it (reference equality). Fourth round: C05.5 an identity
 changes hands only inside a scheduling cycle or restore_placement (shared with
 C09.4).
+Sweep: C05.2 a direct un-placement (server set to None) releases the identity as well; C05.6 the in-use walk flags exactly the found outcome, a group that is still referenced is shrunk to zero on every path from that outcome, and the loader removes from the model exactly the groups the store no longer lists (set algebra over the two listings, loop never cut short, no further condition).
 Does NOT decide uniqueness over histories of count changes racing with
 restores (contents of sets over time).
 """
@@ -906,4 +907,47 @@ REFACTORS = [
         app.release_identity()
 
     def schedule_alloc(self, allocation, servers):""")]),
+]
+
+_LD = 'lib/python/treadmill/scheduler/loader.py'
+
+# sweep-driven clauses (DESIGN 9.7)
+MUTANTS += [
+    ('group-in-use-test-inverted', [(_S, """                if app.identity_group_ref == ident_group:
+""", """                if app.identity_group_ref != ident_group:
+""")], 'C05.6'),
+    ('referenced-group-not-shrunk', [(_S, """                    ident_group.adjust(0)
+                    in_use = True
+""", """                    in_use = True
+""")], 'C05.6'),
+    ('stale-groups-kept', [(_LD, """        for name in extra:
+            self.cell.remove_identity_group(name)
+""", """        for name in extra:
+            _LOGGER.info('stale identity group: %s', name)
+""")], 'C05.6'),
+    ('stale-groups-difference-reversed', [(_LD, """        extra = set(self.cell.identity_groups.keys()) - names
+""", """        extra = names - set(self.cell.identity_groups.keys())
+""")], 'C05.6'),
+]
+
+REFACTORS += [
+    ('group-in-use-any', [(_S, """            in_use = False
+            for app in six.itervalues(self.apps):
+                if app.identity_group_ref == ident_group:
+                    ident_group.adjust(0)
+                    in_use = True
+                    break
+            if not in_use:
+                del self.identity_groups[name]
+""", """            in_use = any(app.identity_group_ref == ident_group
+                         for app in six.itervalues(self.apps))
+            if in_use:
+                ident_group.adjust(0)
+            else:
+                del self.identity_groups[name]
+""")]),
+    ('stale-groups-difference-method', [(_LD, """        extra = set(self.cell.identity_groups.keys()) - names
+""", """        known = set(self.cell.identity_groups.keys())
+        extra = known.difference(names)
+""")]),
 ]
